@@ -11,6 +11,7 @@ typedef struct {
   int role, fill;
   unsigned fillarg;  // bits (F_I64 / F_DBLINT / F_RATIO: |ratio| < 2^fillarg), ignored otherwise
   double fscale;     // F_RATIO: values are ratio * fscale (fscale a power of two)
+  int dynrange;          // F_DBL: a quarter of the fills scale every value by its own power of two in 2^-60 .. 2^60 (operands of pointwise products)
   int any_finite;        // F_DBL: every finite double (all exponents, subnormals included) instead of a bounded range
   uint64_t zero_block;  // if non-zero: each block of zero_block elements is entirely zero with probability 1/4
   uint64_t live_limbs;  // INOUT limb vectors of in-place calls with res_size > a_size: limbs >= live_limbs+... are output-only;
@@ -153,6 +154,8 @@ void ops_lifecycle_case(const char* key, unsigned kindmask, int cfg, int steps, 
 // in-place rotation (which 0 / 2 big) or automorphism (1 / 3 big) on ring N with exponent pA, exactly 256 and 65536 in-place calls after the previous
 // such call, only calls (N2, pB) in between; compared with the out-of-place call and the definition
 void ops_ring_history_case(int which, uint64_t N, int64_t pA, uint64_t N2, int64_t pB, int native, unsigned rep, const char* counter);
+// the named entries, reps argument sets each, with MON_RECONTENT
+void ops_recontent_case(const char* key, const char* const* names, int n, uint64_t N, int cfg, int reps, unsigned rep, const char* counter);
 // counts of memcheck definedness failures observed by MON_VALGRIND (process-wide)
 extern uint64_t ops_valgrind_undefined_outputs;
 
